@@ -187,8 +187,61 @@ func (e *env) verifyLists(caseID string, rng *rand.Rand, m *refmodel.Model, hist
 	return true
 }
 
+// deepReorg: a reorganisation over d heights, then one request per 50 blocks covering EVERY block of both branches at its
+// own height (the new branch must be CONFIRMED, the old one INVALID).
+func (e *env) deepReorg(caseID string, d int) {
+	r := e.r
+	rng := r.Rand(caseID)
+	hist := gen.DeepReorg(rng, rig.Genesis(), 1+rng.Intn(3), d)
+	if err := e.st.Reset(); err != nil {
+		r.Violate("harness|reset", err.Error(), caseID, nil)
+		return
+	}
+	m := mb.NewModel()
+	for _, h := range hist.Hdrs {
+		si := mb.Step(e.st, m, h)
+		if si.Res.Panic != nil || si.Res.Code() != mb.WantCode(si.Outcome) {
+			r.Count("histories_cut_short_by_ingest_divergence", 1)
+			return
+		}
+	}
+	stx := e.byExcess[6]
+	nodes := m.Order[1:]
+	for lo := 0; lo < len(nodes); lo += 50 {
+		hi := lo + 50
+		if hi > len(nodes) {
+			hi = len(nodes)
+		}
+		var req []item
+		var want []string
+		for _, n := range nodes[lo:hi] {
+			req = append(req, item{Root: n.Merkle.String(), Height: n.Height, class: "deep-reorg-" + n.State + "-own-height"})
+			v, _ := m.MerkleVerdict(n.Merkle.String(), int64(n.Height), 6)
+			want = append(want, v)
+		}
+		b, _ := json.Marshal(req)
+		w := stx.POST("/api/v1/chain/merkleroot/verify", b)
+		var rs resp
+		if w.Code != 200 || mb.DecodeOne(w.Body.Bytes(), &rs) != nil || len(rs.Confirmations) != len(req) {
+			r.Violate("deep-reorg|http", fmt.Sprintf("POST verify -> %d with %d verdicts for %d items", w.Code, len(rs.Confirmations), len(req)), caseID, map[string]any{"reorganisation_depth": d})
+			return
+		}
+		for i := range req {
+			r.Distinct(fmt.Sprintf("%s|%s", req[i].class, want[i]))
+			r.Count("verdicts_"+want[i], 1)
+			if rs.Confirmations[i].Confirmation != want[i] {
+				r.Violate(sigOf(req[i], want[i], rs.Confirmations[i].Confirmation), fmt.Sprintf("after a reorganisation over %d heights: block %d of %d (arrival order) at height %d: verdict %s, expected %s", d, lo+i+1, len(nodes), req[i].Height, rs.Confirmations[i].Confirmation, want[i]), caseID, map[string]any{"reorganisation_depth": d, "item": req[i]})
+				return
+			}
+		}
+		r.Case("", false)
+	}
+	r.Count("deep_reorganisations", 1)
+	r.Count("states_after_reorg", 1)
+}
+
 func body(r *ev.Run) {
-	r.Rule("states = every reorganisation point (and every 10th step, and the end) of seeded random histories with forks, stale blocks sharing heights with longest blocks, orphans, duplicate merkle roots across branches; per state several request lists (length 1..50, with duplicates) drawn from {every stored (root, own height / height+-1), non-longest roots at the tip height, unknown / tip / genesis roots at heights -1, 0, 1, tip-1..tip+excess+2, MaxInt32, MinInt32} for excess in {0,1,6,100,MaxInt32,2^31,2^40}; sent through POST /api/v1/chain/merkleroot/verify and Merkleroots.GetMerkleRootsConfirmations. evaluations = request lists; distinct = distinct (item class, expected verdict) pairs observed; non-trivial = all.")
+	r.Rule("states = every reorganisation point (and every 10th step, and the end) of seeded random histories with forks, stale blocks sharing heights with longest blocks, orphans, duplicate merkle roots across branches; per state several request lists (length 1..50, with duplicates) drawn from {every stored (root, own height / height+-1), non-longest roots at the tip height, unknown / tip / genesis roots at heights -1, 0, 1, tip-1..tip+excess+2, MaxInt32, MinInt32} for excess in {0,1,6,100,MaxInt32,2^31,2^40}; plus reorganisations over 501 heights (thorough: 499..2001) after which every block of both branches is asked about; sent through POST /api/v1/chain/merkleroot/verify and Merkleroots.GetMerkleRootsConfirmations. evaluations = request lists; distinct = distinct (item class, expected verdict) pairs observed; non-trivial = all.")
 	r.Assume("merkle roots compared in canonical lower-case hex", "excess values 0, 1, 6, 100, MaxInt32, 2^31, 2^40", "reference model transcribes the statement")
 	r.Require("verdicts_CONFIRMED", 200)
 	r.Require("verdicts_UNABLE_TO_VERIFY", 50)
@@ -205,6 +258,15 @@ func body(r *ev.Run) {
 	for _, x := range excesses {
 		x := x
 		e.byExcess[x] = st.Sibling(func(c *config.AppConfig) { c.MerkleRoot.MaxBlockHeightExcess = x })
+	}
+	// deep reorganisations: every block of both branches is asked about afterwards
+	depths := []int{501}
+	if r.Thorough() {
+		depths = []int{499, 500, 501, 1000, 1001, 2001}
+	}
+	for _, d := range depths {
+		caseID := fmt.Sprintf("deep/%d", d)
+		r.Do(caseID, func() { e.deepReorg(caseID, d) })
 	}
 	nHist := r.Pick(200, 5000)
 	for i := 0; i < nHist; i++ {
